@@ -17,6 +17,7 @@ from ahbicht.expressions.ahb_expression_evaluation import evaluate_ahb_expressio
 from ahbicht.expressions.expression_resolver import parse_expression_including_unresolved_subexpressions
 
 STATES = "FUK"
+EXACT = G.Style(p_redundant=0.0, flat_runs=0.0)  # every same-operator child is bracketed: the parse is exactly the generator's AST
 PKG_NAMES = ["1P", "2P", "3P"]
 
 
@@ -25,17 +26,17 @@ def table_for(keys, offset=0):
     return {k: STATES[(i + offset) % 3] for i, k in enumerate(sorted(keys, key=int))}
 
 
-def abbreviate(ast, rng, max_packages=3):
-    """replace up to max_packages sub-expressions by packages whose expression is that sub-expression"""
+def abbreviate(ast, rng, max_packages=3, names=PKG_NAMES):
+    """replace up to max_packages sub-expressions by packages (names taken from `names`) whose expression is that sub-expression"""
     table = {}
-    for name in rng.sample(PKG_NAMES, rng.randint(0, max_packages)):
+    for name in rng.sample(list(names), rng.randint(0, min(max_packages, len(names)))):
         candidates = [p for p in G.paths(ast) if G.get_at(ast, p)[0] != "pkg" and not any(G.get_at(ast, p[:i])[0] == "then" for i in range(len(p) + 1))]
         candidates = [p for p in candidates if not any(leaf[0] == "pkg" for leaf in G.leaves(G.get_at(ast, p)))]
         if not candidates:
             break
         path = rng.choice(candidates)
         node = G.get_at(ast, path)
-        table[name] = G.render(node, rng)
+        table[name] = G.render(node, rng, EXACT)
         ast = G.replace_at(ast, path, ["pkg", name, rng.choice([None, None, "0..1"])])
     return ast, table
 
@@ -77,6 +78,15 @@ async def check_orders(ctx, case):
             ctx.violation(f"baseline-raises-{type(baseline[1]).__name__}", f"{s!r} (nothing yields) {describe(baseline)[:300]}")
         return
     base = summarise(baseline)
+    if case.get("table") and case.get("plain"):
+        # pairing of package occurrences, independent of the code's own baseline: the expression in which every package is written out
+        # (same AST, fully bracketed) must evaluate to the same result
+        plain = await sched.run_under(None, lambda: pipeline(case["plain"], make_world(case)))
+        ctx.evaluation()
+        ctx.count("package_pairing_comparisons")
+        if plain[0] == "ok" and repr(plain[1][1]) != repr(baseline[1][1]):
+            ctx.violation("pairing-packages", f"{s!r} with packages {case['table']} evaluates to {baseline[1][1]!r:.300}; with every package written out ({case['plain']!r}) the result is {plain[1][1]!r:.300}")
+            return
     orders = set()
     runs = 0
     # how many awaitables does one run park? decide between complete enumeration and sampling on a probe run
@@ -214,25 +224,19 @@ def gen_case(rng):
     parts = GA.gen_parts(rng, cond, max_parts=3, p_bare=0.0, p_prefix=0.2)
     new_parts = []
     for ind, c in parts:
-        if c is not None and rng.random() < 0.6 and len(table) < 3:
-            free = [n for n in PKG_NAMES if n not in table]
-            c2, t = abbreviate(c, rng, max_packages=min(2, len(free)))
-            # rename to unused package names
-            for name, expr in list(t.items()):
-                if name in table:
-                    t.pop(name)
-            # keep it simple: only take the abbreviation if its names are free
-            if all(n not in table for n in t):
-                table.update(t)
-                c = c2
+        free = [n for n in PKG_NAMES if n not in table]
+        if c is not None and rng.random() < 0.6 and free:
+            c, t = abbreviate(c, rng, max_packages=2, names=free)
+            table.update(t)
         new_parts.append([ind, c])
-    s = GA.render_parts(new_parts, rng)
+    s = GA.render_parts(new_parts, rng, style=EXACT)
+    plain = GA.render_parts(parts, rng, style=EXACT)
     rc_keys, fc_keys = set(), set()
     for _ind, c in parts:  # the un-abbreviated parts know all keys
         if c is not None:
             rc_keys.update(G.keys_of(c, "rc"))
             fc_keys.update(G.keys_of(c, "fc"))
-    return {"s": s, "table": table, "rc_keys": sorted(rc_keys, key=int), "fc_keys": sorted(fc_keys, key=int)}
+    return {"s": s, "plain": plain, "table": table, "rc_keys": sorted(rc_keys, key=int), "fc_keys": sorted(fc_keys, key=int)}
 
 
 async def run(ctx):
